@@ -611,24 +611,32 @@ func runConnProg(cp cprog, out *coutcome) {
 	out.results = make([]string, nCalls)
 	appDone := false
 	// responder peer
+	issuedAll := false
 	vsched.GoNamed("peer", func() {
 		var pending []rpccp.Call
-		answered := 0
-		reply := func(c rpccp.Call, idx int) {
+		flushed := false
+		reply := func(c rpccp.Call) {
 			pl, _ := c.Params()
 			cnt, _ := pl.Content()
 			id := int(cnt.Struct().Uint32(0))
-			if idx == cp.except {
+			if id-500 == cp.except {
 				p.ReturnException(c.QuestionId(), fmt.Sprintf("boom%d", id))
 			} else {
 				p.ReturnResults(c.QuestionId(), id, nil, false)
 			}
-			answered++
 		}
-		seen := 0
 		for {
-			m, ok := p.Next(func() bool { return appDone })
+			m, ok := p.Next(func() bool { return appDone || (cp.reverse && issuedAll && !flushed) })
 			if !ok {
+				if cp.reverse && issuedAll && !flushed {
+					// the application has issued everything it is going to:
+					// answer what arrived, latest first
+					flushed = true
+					for i := len(pending) - 1; i >= 0; i-- {
+						reply(pending[i])
+					}
+					continue
+				}
 				return
 			}
 			switch m.Msg.Which() {
@@ -637,17 +645,10 @@ func runConnProg(cp cprog, out *coutcome) {
 				p.ReturnBootstrap(b.QuestionId(), rpcsim.CapD{Kind: 's', ID: 0})
 			case rpccp.Message_Which_call:
 				c, _ := m.Msg.Call()
-				if cp.reverse {
+				if cp.reverse && !flushed {
 					pending = append(pending, c)
-					seen++
-					if seen == nCalls {
-						for i := len(pending) - 1; i >= 0; i-- {
-							reply(pending[i], i)
-						}
-					}
 				} else {
-					reply(c, seen)
-					seen++
+					reply(c)
 				}
 			}
 		}
@@ -672,7 +673,16 @@ func runConnProg(cp cprog, out *coutcome) {
 		rels = append(rels, rel)
 		k++
 	}
-	for _, o := range cp.ops {
+	lastCall := -1
+	for i, o := range cp.ops {
+		if o == aCallDirect || o == aCallPipe {
+			lastCall = i
+		}
+	}
+	for oi, o := range cp.ops {
+		if oi == lastCall+1 {
+			issuedAll = true // (a release after the last call waits for its answer)
+		}
 		switch o {
 		case aCallDirect:
 			send(func(sd capnp.Send) (*capnp.Answer, capnp.ReleaseFunc) { return bc.SendCall(cctx, sd) })
@@ -700,6 +710,7 @@ func runConnProg(cp cprog, out *coutcome) {
 			}
 		}
 	}
+	issuedAll = true
 	for i, ans := range answers {
 		if out.results[i] == "" {
 			st, err := ans.Struct()
@@ -764,7 +775,18 @@ func judgeConn(cp cprog, out *coutcome, vr *vsched.Result) (string, string) {
 			cancelledUnsent[i] = true
 			continue
 		}
-		if calls[i].base >= 0 && out.cancelled[calls[i].base] && strings.HasPrefix(r, "exc:") {
+		// ancestors in the pipeline chain (a call pipelined on a call that
+		// failed or was cancelled fails with that call's error, transitively)
+		ancCancelled, ancFailed := false, false
+		for b := calls[i].base; b >= 0; b = calls[b].base {
+			if out.cancelled[b] {
+				ancCancelled = true
+			}
+			if b == cp.except && strings.Contains(r, fmt.Sprintf("boom%d", 500+b)) {
+				ancFailed = true
+			}
+		}
+		if ancCancelled && strings.HasPrefix(r, "exc:") {
 			localNull[i] = true // pipelined on a cancelled call: fails with its error
 			cancelledUnsent[i] = true
 			continue
@@ -776,7 +798,7 @@ func judgeConn(cp cprog, out *coutcome, vr *vsched.Result) (string, string) {
 			localNull[i] = true
 			continue
 		}
-		if calls[i].base >= 0 && calls[i].base == cp.except && strings.Contains(r, fmt.Sprintf("boom%d", 500+calls[i].base)) {
+		if ancFailed {
 			localNull[i] = true // pipelined on a call that failed: fails with its error
 			continue
 		}
